@@ -566,6 +566,13 @@ func callClobbers(c *ssa.CallCommon, alloc *ssa.Alloc, path []int) bool {
 		if root == ssa.Value(alloc) && pathRelated(p, path) {
 			return true
 		}
+		// slice of the local array handed to a call (copy(buf[:], x))
+		if sl, ok := a.(*ssa.Slice); ok {
+			root, p := addrPath(sl.X)
+			if root == ssa.Value(alloc) && pathRelated(p, path) {
+				return true
+			}
+		}
 		// address boxed into an interface (e.g. &amount passed as interface{})
 		if mi, ok := a.(*ssa.MakeInterface); ok {
 			root, p := addrPath(mi.X)
